@@ -361,3 +361,28 @@ func VH_C01_any_first_length() {
 	verifReach("C01.first-length.maximum", l == 0x3FFF)
 	verifReach("C01.first-length.zero", l == 0)
 }
+
+// the salt is the client's choice (clients may start it with a fixed prefix that looks like
+// another protocol): whatever its first bytes are, a stream under a configured key authenticates
+func VH_C01_any_salt_prefix() {
+	cl, specs, entries := verifMakeList(1+verifChoice("nkeys", 2), 2, false)
+	which := verifChoice("which", len(specs))
+	for i := 0; i < which; i++ {
+		verifAssume(specs[i] != specs[which])
+	}
+	key := verifKey(specs[which].cipher, verifSecrets[specs[which].secret])
+	salt := make([]byte, key.SaltSize())
+	verifFixedSaltGen{4}.GetSalt(salt)
+	copy(salt, verifBytes("salt-prefix", 8))
+	verifAssume(!entries[which].SaltGenerator.IsServerSalt(salt))
+	aead, err := key.NewAEAD(salt)
+	verifAssert("C01.salt-prefix.aead", err == nil)
+	block := aead.Seal(nil, make([]byte, aead.NonceSize()), []byte{0, 9}, nil)
+	stream := append(append([]byte{}, salt...), block...)
+	stream = append(stream, verifBytes("rest", 25)...)
+	conn := &verifStreamConn{name: "client", remote: &net.TCPAddr{IP: net.IPv4(203, 0, 113, 5), Port: 50000}}
+	conn.reads = []verifSRead{{data: stream}}
+	e, _, _, _, ferr := findAccessKey(conn, remoteIP(conn), cl, noopLogger())
+	verifAssert("C01.salt-prefix.authenticated-whatever-the-salt-starts-with", ferr == nil && e != nil && e.ID == entries[which].ID)
+	verifReach("C01.salt-prefix.looks-like-http", salt[0] == 'G' && salt[1] == 'E' && salt[2] == 'T' && salt[3] == ' ')
+}
